@@ -114,7 +114,7 @@ MANIFEST = dict(
          "(cleanup after bye/expiry/any end), nothing resolves after MCU loss; a delete succeeds only for the creating "
          "session and otherwise leaves the object resolvable and open. Tied to the code by 33 regenerated facts and a "
          "differential run of the real ProxyServer under a virtual clock.",
-    note="One defect found and fixed (b027f0e): object created after its session ended stayed open/resolvable. "
+    note="One defect found and fixed (100c0db): object created after its session ended stayed open/resolvable. "
          "Trusted: Lean kernel, extractor, harness/comparison, golang-jwt, synctest; crypto assumed (oracle). "
          "Step granularity: messages atomic except two-phase create.",
     technique="Lean 4 proof (inductive invariant over all op sequences, refinement of the token check list to the "
